@@ -171,7 +171,8 @@ def gen_local_study(rng, shape=None, scenario=None, cancel=None, nmax=6):
         steps.append({"name": names[i], "deps": deps, "use": use, "codes": variants,
                       "restart": rng.random() < 0.15, "cancel": False,
                       "shape": sorted(rng.sample(range(len(SNIPPETS)), rng.choice([0, 1, 2, 3]))),
-                      "end": rng.choice(ENDINGS)})
+                      "end": rng.choice(ENDINGS),
+                      "chatty": rng.choice(["out", "err"]) if rng.random() < 0.06 else None})
     if cancel is None:
         cancel = False
     if cancel == "step" and steps:
@@ -199,6 +200,8 @@ SNIPPETS = [
     (['printf "%s;%s\\n" semi colon; :'], "semi;colon\n"),
 ]
 ENDINGS = ["exit", "exit", "lastcmd", "false", "lastcmd-comment"]
+CHATTY_BYTES = 200000
+RUN_TIMEOUT = 75          # hard limit per `maestro run` / `conductor` sub-process of a local study
 
 
 def step_cmd(st, d):
@@ -214,6 +217,10 @@ def step_cmd(st, d):
         'echo "out %s $n%s"' % (st["name"], uses),
         'echo "err %s $n" >&2' % st["name"],
     ]
+    if st.get("chatty") == "out":          # more than a pipe buffer holds: the adapter must keep reading
+        lines.append("head -c %d /dev/zero | tr '\\0' x" % CHATTY_BYTES)
+    elif st.get("chatty") == "err":
+        lines.append("head -c %d /dev/zero | tr '\\0' x 1>&2" % CHATTY_BYTES)
     for k in st.get("shape", []):
         lines += SNIPPETS[k][0]
     lines += [
@@ -285,7 +292,7 @@ def run_study_case(job):
                    "--throttle", case["throttle"]] + flag_args(case) + ["-o", out, "spec.yaml"]
     res = {"mode": mode, "pre": []}
     if mode == "fg":
-        rc, tail = launch("maestro", ["run", "-fg", "-y"] + common_args, d, env, logfile=log)
+        rc, tail = launch("maestro", ["run", "-fg", "-y"] + common_args, d, env, logfile=log, timeout=RUN_TIMEOUT)
     else:
         rc0, tail0 = launch("maestro", ["run", "-n"] + common_args, d, {}, logfile=log)
         res["pre"].append(["maestro run -n", rc0])
@@ -296,7 +303,7 @@ def run_study_case(job):
         if rc0 != 0:
             rc, tail = rc0, tail0
         else:
-            rc, tail = launch("conductor", ["-t", POLL_SLEEP, out], d, env, logfile=log)
+            rc, tail = launch("conductor", ["-t", POLL_SLEEP, out], d, env, logfile=log, timeout=RUN_TIMEOUT)
     res["rc"] = rc
     res["tail"] = tail[-1500:]
     return res
@@ -418,6 +425,11 @@ def translate(case, o):
     """-> (ecase dict for H.g_case or None, clause violations [str], problems [str])."""
     viol, prob = [], []
     if "problem" in o:
+        if o.get("rc") == 124:
+            return None, ["the study did not terminate (HANG: sub-process killed after %d s; flags:%s)%s"
+                          % (RUN_TIMEOUT, " ".join(flag_args(case)) or " none",
+                             "; it has a step writing %d bytes to one of its streams" % CHATTY_BYTES
+                             if any(s_.get("chatty") for s_ in case["steps"]) else "")], []
         if o.get("rc") not in STATUS_OF_RC:
             # the command line itself failed on a legal study: no verdict, nothing to translate
             return None, ["`maestro run`/`conductor` exited %r (no study verdict) on a legal study (flags:%s); output tail: %s"
@@ -508,16 +520,21 @@ def translate(case, o):
             st = by_step.get(e["step"])
             exp_out = "out %s %d%s\n" % (e["step"], e["n"], "".join(
                 " %s=%s" % (kk, inst[x]["params"].get(kk, "<missing>")) for kk in (st["use"] if st else [])))
-            exp_out += "".join(SNIPPETS[k][1] for k in (st.get("shape", []) if st else []))
             exp_err = "err %s %d\n" % (e["step"], e["n"])
+            if st and st.get("chatty") == "out":
+                exp_out += "x" * CHATTY_BYTES
+            elif st and st.get("chatty") == "err":
+                exp_err += "x" * CHATTY_BYTES
+            exp_out += "".join(SNIPPETS[k][1] for k in (st.get("shape", []) if st else []))
             for ext, exp in ((".out", exp_out), (".err", exp_err)):
                 got = [p for p in o["files"] if os.path.dirname(p) == inst[x]["ws"] and p.endswith(".%d%s" % (e["pid"], ext))]
                 if len(got) != 1:
                     viol.append("instance %s attempt %d: expected one *.%d%s file in its workspace, found %d"
                                 % (inst[x]["name"], e["n"], e["pid"], ext, len(got)))
                 elif o["files"][got[0]] != exp:
-                    viol.append("instance %s attempt %d: captured %s is %r, the step wrote %r"
-                                % (inst[x]["name"], e["n"], ext, (o["files"][got[0]] or "")[:80], exp))
+                    gotx = o["files"][got[0]] or ""
+                    viol.append("instance %s attempt %d: captured %s holds %d bytes %r..., the step wrote %d bytes %r..."
+                                % (inst[x]["name"], e["n"], ext, len(gotx), gotx[:80], len(exp), exp[:80]))
         # rows of this poll in instance order
         rows = [None] * n
         for (nm, state, job, restarts, _ws, _pa) in o["status"][k]:
@@ -560,8 +577,12 @@ def translate(case, o):
                 if final[y][0] != "FAILED":
                     viol.append("instance %s depends on the failed %s but is %s" % (inst[y]["name"], nd["name"], final[y][0]))
     if o["rc"] in (99, 124):
-        viol.append("the study did not terminate: stopped by the harness after %d polls for %d instances (flags:%s)"
-                    % (len(o["marks"]), len(inst), " ".join(flag_args(case)) or " none"))
+        started = [e["step"] for p in o["marks"] for e in p if e["t"] == "S"]
+        viol.append("the study did not terminate (%s; %d instances; flags:%s); last step started: %s%s"
+                    % ("HANG: sub-process killed after %d s" % RUN_TIMEOUT if o["rc"] == 124 else "poll budget of %d exhausted" % len(o["marks"]),
+                       len(inst), " ".join(flag_args(case)) or " none", started[-1] if started else "none",
+                       " (a step writing %d bytes to one of its streams)" % CHATTY_BYTES
+                       if any(s_.get("chatty") for s_ in case["steps"]) else ""))
         return None, viol, prob
     if o["rc"] not in STATUS_OF_RC:
         viol.append("process exit code %r is not a study verdict (0 FINISHED / 2 FAILURE / 3 CANCELLED); output tail: %s"
@@ -741,6 +762,16 @@ def exit_code_cases(rng, n):
         items.append({"case": gen_abort_study(rng, how), "mode": "fg"})
     items.append({"case": gen_abort_study(rng, "qerror"), "mode": "conductor"})
     items.append({"case": gen_abort_study(rng, "submit"), "mode": "conductor"})
+    for k in range(4):
+        # --usetmp and the temporary script directory disappears while jobs are in flight: the exit code
+        # must remain the truthful 0 / 2 / 3
+        case = gen_scripted_study(rng, shape=rng.choice(["chain", "diamond", "fanout"]), cancel=(k == 3))
+        case["usetmp"], case["reap_tmp"], case["scenario"] = True, True, "tmp-reaped"
+        if k == 2:
+            sch = [s_ for s_ in case["steps"] if s_["scheduled"]]
+            if sch:
+                sch[-1]["reports"] = ["RUNNING", "FAILED"]
+        items.append({"case": case, "mode": "fg" if k % 2 == 0 else "conductor"})
     for i in range(n):
         if i % 3 == 2:
             case = gen_scripted_study(rng, cancel=(i % 4 == 1), qfault=(i % 5 == 0))
@@ -840,6 +871,8 @@ def gen_scripted_study(rng, shape=None, cancel=False, qfault=False):
             "attempts": rng.choice([1, 2, 3]), "throttle": rng.choice([0, 0, 1, 2]), "rlimit": rlimit,
             "hashws": bool(params) and rng.random() < 0.6, "usetmp": rng.random() < 0.3,
             "qcodes": qcodes, "cancel": "step" if cancel else "no"}
+    # (callers may set case["reap_tmp"]: with --usetmp the temp script directory is removed from outside
+    #  at every status query, as a /tmp reaper would)
 
 
 def scripted_spec(case, d):
@@ -870,7 +903,7 @@ def scripted_spec(case, d):
                                      for p in case["params"]}
     script = {"log": alog, "submit_by_prefix": {s["name"]: s["submit"] for s in case["steps"] if s["scheduled"]},
               "reports_by_prefix": {s["name"]: s["reports"] for s in case["steps"] if s["scheduled"]},
-              "qcodes": case["qcodes"], "faults": case.get("faults", [])}
+              "qcodes": case["qcodes"], "faults": case.get("faults", []), "reap_tmp": bool(case.get("reap_tmp"))}
     return yaml.safe_dump(spec, default_flow_style=False, sort_keys=False), script
 
 
@@ -961,7 +994,7 @@ def translate_scripted(case, d, res):
     pending_cancel = None
     for e in entries:
         c = e["call"]
-        if c == "poll":
+        if c in ("poll", "reap", "fault"):
             continue
         if c == "cancel_jobs":
             pending_cancel = [jobno.get(str(j), 900 + len(jobno)) for j in e["jobs"]]
